@@ -316,7 +316,8 @@ class Engine(ExprMixin, CallMixin):
 
     def eval_rhs(self, node, st, want):
         # aliasing: x = <path to mutable container inside another variable>
-        if isinstance(node, (ast.Name, ast.Subscript, ast.Attribute)) and not (
+        # (ghost assignments snapshot the value instead: ghost variables never alias program state)
+        if not self.in_ghost and isinstance(node, (ast.Name, ast.Subscript, ast.Attribute)) and not (
             isinstance(node, ast.Subscript) and isinstance(node.slice, ast.Slice)
         ):
             lv = self.lvalue(node, st)
@@ -579,7 +580,9 @@ class Engine(ExprMixin, CallMixin):
             def visit_Assign(v, node):
                 for t in node.targets:
                     targets(t)
-                    if isinstance(t, ast.Name) and isinstance(node.value, (ast.Name, ast.Subscript, ast.Attribute)):
+                    if isinstance(t, ast.Name) and isinstance(node.value, (ast.Name, ast.Subscript, ast.Attribute)) and not (
+                        isinstance(node.value, ast.Subscript) and isinstance(node.value.slice, ast.Slice)
+                    ):
                         b = base_name(node.value)
                         bv = st.env.get(b) if b else None
                         immut = isinstance(bv, SV) and not self.is_mutable(bv.ty)
@@ -644,12 +647,24 @@ class Engine(ExprMixin, CallMixin):
                 mods.add(v.root)
         # ghost code attached to statements of the body
         if self.cur is not None:
+            inner = [n for s in body for n in ast.walk(s) if isinstance(n, ast.stmt)]
+            texts = None
+            codes = []
             for where, anchor, code in self.cur.ghost:
-                try:
-                    for s in ast.parse(_dedent(code)).body:
-                        vis.visit(s)
-                except SyntaxError:
-                    pass
+                if where not in ("before", "after"):
+                    continue
+                if texts is None:
+                    texts = [ast.unparse(n) for n in inner]
+                if any((t == anchor[1:]) if anchor.startswith("=") else t.startswith(anchor) for t in texts):
+                    codes.append(code)
+            for n in inner:
+                if isinstance(n, (ast.For, ast.While)):
+                    sp = self.cur.loops.get(self.loop_ordinals.get(id(n)), {}) or {}
+                    codes.extend(sp.get("begin", []))
+                    codes.extend(sp.get("end", []))
+            for code in codes:
+                for s in ast.parse(_dedent(code)).body:
+                    vis.visit(s)
         return mods
 
     def lookup_contract_for_call(self, fname, st):
